@@ -1,5 +1,5 @@
 """Shared runner for C01-C04: programs -> TLC (GlyphCore) -> Go observations."""
-import json, os, sys
+import json, os, re, sys
 sys.path.insert(0, os.path.join(os.path.dirname(os.path.abspath(__file__)), "..", "tools"))
 import vf, langgen
 
@@ -7,7 +7,7 @@ MAXITER = 40
 MAXFUEL = 4000
 
 
-VM_KNOWN = ["VM_StringOrdering", "VM_MissingFieldError", "VM_MissingKeyNull", "VM_DupKeyFirst", "VM_ForVarFlat", "VM_LenObjError"]
+VM_KNOWN = ["VM_StringOrdering", "VM_MissingFieldError", "VM_MissingKeyNull", "VM_DupKeyFirst", "VM_ForVarFlat", "VM_LenObjError", "VM_IgnoresValidation"]
 
 
 def evaluate(progs, timeout=3000, dev=()):
@@ -45,18 +45,39 @@ def observe(progs, cases, timeout=3000, hang=False, race=False, env=None):
         if c["out"]["kind"] == "unrep":
             kind = "error-limit"     # outcome unknown to the model: may not terminate either
         items.append({"id": p["id"], "src": c["src"], "pre": c.get("pre", ""), "vars": p["vars"], "tags": p["tags"], "kind": kind})
-    vf.write_ndjson(path, items)
     out = path + ".out"
     hout = path + ".hang"
     run = "TestVerifLangRun$" if not hang else "TestVerifLang(Run|Hang)$"
-    rc, txt = vf.go_test("cmd/glyph", ["harness_test.go", "lang_test.go"], run=run,
-                         env=dict({"VERIF_CASES": path, "VERIF_OUT": out, "VERIF_HANG_OUT": hout}, **(env or {})), timeout=timeout, race=race)
-    observe.last_output = txt
-    res = vf.read_ndjson(out)
-    summ = [x for x in res if x.get("summary")]
-    if not summ or summ[0]["cases"] != len(items):
-        raise vf.InfraError("language driver failed rc=%s\n%s" % (rc, txt[-3000:]))
-    obs = {x["id"]: x for x in res if not x.get("summary")}
+    obs, crashed, remaining, txt = {}, {}, items, ""
+    for attempt in range(9):
+        vf.write_ndjson(path, remaining)
+        for f in (out, hout):
+            if os.path.exists(f):
+                os.remove(f)
+        rc, txt = vf.go_test("cmd/glyph", ["harness_test.go", "lang_test.go"], run=run,
+                             env=dict({"VERIF_CASES": path, "VERIF_OUT": out, "VERIF_HANG_OUT": hout}, **(env or {})), timeout=timeout, race=race)
+        observe.last_output = txt
+        res = vf.read_ndjson(out)
+        summ = [x for x in res if x.get("summary")]
+        obs.update({x["id"]: x for x in res if not x.get("summary")})
+        if summ and summ[0]["cases"] == len(remaining):
+            break
+        # the test binary died.  If the Go runtime says why (fatal error: stack overflow, an unrecovered panic, out of
+        # memory) the program it was running took the process down: that is an observation about the code under test.
+        # The results are written one by one, so the program is the first one without a record.
+        m = re.search(r"^(fatal error: [^\n]*|panic: (?!test timed out)[^\n]*|runtime: goroutine stack exceeds[^\n]*)", txt, re.M)
+        done = {x["id"] for x in res if not x.get("summary")}
+        rest = [it for it in remaining if it["id"] not in done]
+        if not m or not rest:
+            raise vf.InfraError("language driver failed rc=%s\n%s" % (rc, txt[-3000:]))
+        i = txt.find(m.group(1))
+        crashed[rest[0]["id"]] = {"id": rest[0]["id"], "crash": m.group(1)[:160], "excerpt": txt[max(0, i - 300):i + 2500]}
+        remaining = rest[1:]
+        if attempt == 8:
+            # eight programs took the process down: enough said; the rest of the corpus is not run
+            skipped.update({it["id"]: {"id": it["id"], "skipped": "after-crashes"} for it in remaining})
+            break
+    obs.update(crashed)
     obs.update(skipped)
     return obs, (vf.read_ndjson(hout) if hang else [])
 
@@ -183,7 +204,7 @@ def walk_exprs(e):
 
 def stmt_exprs(s):
     k = s["s"]
-    if k in ("decl", "set", "expr", "ret"):
+    if k in ("decl", "set", "expr", "ret", "check"):
         yield s["x"]
     elif k == "pset":
         yield s["x"]
